@@ -4,10 +4,56 @@ import json, os, sys
 from vlib import *
 import l1
 
+def scope_replay(pid, path, v):
+    """C07 / C05 dialect frames: recompile the program for the dialect and re-run the scope monitor"""
+    import scoperun
+    d = workdir("replay-scope")
+    TU = {"t": ["k", "a", "b"], "u": ["k", "a", "c"]}
+    src = {"id": "replay", "src": v["prql"]}
+    if re.search(r"\bfrom (t|u)\b", v["prql"]) or "let t <" in v["prql"]:
+        src["schema"] = TU
+    expect = None
+    if v.get("kind") == "dialect-frame":
+        src["id"] = "replay" + ("o" if str(v.get("program", {}).get("id", "")).endswith("o") else "")
+        expect = {src["id"]: v["expected_frame"]}
+    sr = scoperun.run(d, [src], dialects=v.get("dialect", "all"), expect=expect, nsh=1)
+    want = "frame" if v.get("kind") == "dialect-frame" else None
+    rj = [r for r in sr["rejects"] if (want is None) == (r["verdict"] != "frame")]
+    for r in rj:
+        print("rejected:", r["dialect"], r["verdict"], r["detail"]); print("  SQL:", r["rec"].get("sql"))
+    if rj:
+        print(f"VIOLATION property={pid} replay={path}"); return 1
+    print("accepted"); return 0
+
+def purity_replay(pid, path, v):
+    """C11: the input again, from several fresh processes and threads; every API must give one artefact"""
+    d = workdir("replay-purity")
+    ip = os.path.join(d, "in.json"); json.dump([{"id": "replay", "src": v["prql"], "dialect": None}], open(ip, "w"))
+    outs = {}
+    for k in range(8):
+        op = os.path.join(d, f"o{k}.ndjson")
+        pv(["purity", ip, op, "4" if k == 0 else "1", "2", "1" if k == 0 else "0", "replay"])
+        for e in read_ndjson(op):
+            if e.get("event") == "Result":
+                outs.setdefault(e["input"], set()).add(e.get("text", ""))
+    bad = {k: sorted(x) for k, x in outs.items() if len(x) > 1}
+    for k, x in bad.items():
+        print("differs:", k); [print("   ", t[:300]) for t in x]
+    if bad:
+        print(f"VIOLATION property={pid} replay={path}"); return 1
+    print("one artefact per API over 8 processes"); return 0
+
 def main(pid, path):
+    import re as _re
+    globals()["re"] = _re
     v = json.load(open(path))
+    if pid == "C07" or v.get("kind") == "dialect-frame":
+        return scope_replay(pid, path, v)
+    if pid == "C11" and v.get("prql") and not v["prql"].startswith("[["):
+        return purity_replay(pid, path, v)
     if "program" not in v:
-        print("replay file has no program record; see its fields for the failing input"); return 2
+        print(json.dumps(v, indent=1)[:3000])
+        print("this replay file names the failing input (fields above); re-run `bin/check %s quick` to have it judged again in context" % pid); return 2
     dbset = os.path.join(ROOT, v.get("dbset", "corpus/dbs_quick.json"))
     progs = [v["program"]]
     if v.get("reduced"):
